@@ -45,6 +45,20 @@ pub struct Case {
     pub step_ms: u16,
     pub ops: Vec<Op>,
     pub final_wait_ms: u32,
+    /// the server's other endpoint settings (none of them may lengthen what an unverified address is sent)
+    #[serde(default = "default_timeout")]
+    pub server_timeout_ms: u32,
+    #[serde(default)]
+    pub server_keepalive_ms: Option<u32>,
+    #[serde(default = "default_rate")]
+    pub server_rate: u32,
+}
+
+fn default_timeout() -> u32 {
+    20_000
+}
+fn default_rate() -> u32 {
+    2_000_000
 }
 
 pub struct C18;
@@ -88,9 +102,10 @@ impl Check for C18 {
             prop_oneof![Just(1_000_000u32), 1u32..100_000],
             prop_oneof![Just(10u16), Just(30u16), Just(100u16), Just(500u16)],
             proptest::collection::vec(op, 1..tier.pick(30, 100)),
-            prop_oneof![Just(0u32), Just(25_000u32), 0u32..30_000],
+            prop_oneof![3 => Just(0u32), 3 => Just(25_000u32), 3 => 0u32..30_000, 2 => 30_000u32..700_000],
+            (prop_oneof![3 => Just(20_000u32), 1 => 1_000u32..20_000, 2 => 20_000u32..3_600_000, 1 => Just(u32::MAX)], proptest::option::of(prop_oneof![Just(1u32), 1u32..10_000, Just(u32::MAX)]), prop_oneof![3 => Just(2_000_000u32), 1 => 1u32..100_000, 1 => Just(u32::MAX)]),
         )
-            .prop_map(|(seed, max_total, max_active, server_packet_size, server_alloc, step_ms, ops, final_wait_ms)| Case { seed, max_total, max_active, server_packet_size, server_alloc, step_ms, ops, final_wait_ms })
+            .prop_map(|(seed, max_total, max_active, server_packet_size, server_alloc, step_ms, ops, final_wait_ms, (server_timeout_ms, server_keepalive_ms, server_rate))| Case { seed, max_total, max_active, server_packet_size, server_alloc, step_ms, ops, final_wait_ms, server_timeout_ms, server_keepalive_ms, server_rate })
             .boxed()
     }
 
@@ -99,7 +114,7 @@ impl Check for C18 {
     }
 
     fn rule(&self) -> String {
-        "case = a real Server (limits 1..3 or 200, generated packet-size / allocation settings so that some requests are refused) and up to five spoofable source addresses sending, in a generated interleaving with waits of 0..25 s (so that all ten SYN-ACK resends and the pending-entry expiry are observed): well-formed padded SYNs (also wrong version, extreme limits), repeats of the previous SYN, SYN-typed frames of every length below 1472 with a valid checksum, handshake ACKs with arbitrary nonces, frames of every other type, bursts of up to 400 minimum-size frames (10..15 bytes) one per step, raw bytes. No address ever completes the handshake. Oracle after every server step, per address: bytes sent to it are 0 or strictly less than the bytes received from it; a datagram that is not a full-size SYN produces no reply at all, and copies of a SYN-ACK are never less than 2 s apart. Non-trivial = the server sent at least one byte to an unverified address. Distinct = distinct serialised case.".into()
+        "case = a real Server (limits 1..3 or 200, generated packet-size / allocation settings so that some requests are refused) with generated active-timeout (1 s .. 1 h, or 2^32-1 ms), keepalive and rate settings, and up to five spoofable source addresses sending, in a generated interleaving with waits of 0..25 s and a final wait of up to 12 minutes (so that all SYN-ACK resends and the pending-entry expiry are observed, however the server is configured): well-formed padded SYNs (also wrong version, extreme limits), repeats of the previous SYN, SYN-typed frames of every length below 1472 with a valid checksum, handshake ACKs with arbitrary nonces, frames of every other type, bursts of up to 400 minimum-size frames (10..15 bytes) one per step, raw bytes. No address ever completes the handshake. Oracle after every server step, per address: bytes sent to it are 0 or strictly less than the bytes received from it; a datagram that is not a full-size SYN produces no reply at all, and copies of a SYN-ACK are never less than 2 s apart. Non-trivial = the server sent at least one byte to an unverified address. Distinct = distinct serialised case.".into()
     }
 
     fn assumptions(&self) -> Vec<String> {
@@ -111,7 +126,15 @@ impl Check for C18 {
             max_total: c.max_total as u32,
             max_active: c.max_active as u32,
             handshake_errors: true,
-            ep: EpCfg { max_packet_size: c.server_packet_size.max(1), max_receive_alloc: c.server_alloc.max(1), ..EpCfg::default() },
+            ep: EpCfg {
+                max_packet_size: c.server_packet_size.max(1),
+                max_receive_alloc: c.server_alloc.max(1),
+                active_timeout_ms: c.server_timeout_ms.max(1),
+                keepalive: c.server_keepalive_ms.is_some(),
+                keepalive_interval_ms: c.server_keepalive_ms.unwrap_or(5000).max(1),
+                max_send_rate: c.server_rate.max(1),
+                max_receive_rate: c.server_rate.max(1),
+            },
         };
         let mut w = World::new(c.seed, &cfg);
         let mut rx: HashMap<std::net::SocketAddr, u64> = HashMap::new();
@@ -290,6 +313,12 @@ impl Check for C18 {
             if let Some(v) = account(&w, &mut seen_wire, &mut tx, &rx) {
                 return CaseResult { violation: Some(v), nontrivial: true, classes };
             }
+        }
+        if c.final_wait_ms >= 120_000 {
+            classes.push("waited_2_to_12_minutes_at_the_end");
+        }
+        if c.server_timeout_ms >= 120_000 {
+            classes.push("server_active_timeout_2min_plus");
         }
         if tx.values().any(|v| *v >= 25 * 11) {
             classes.push("syn_ack_resend_budget_exhausted");
